@@ -249,8 +249,9 @@ def alphabet(case, small=False):
     if not small:
         return full
     keep = {('add_line0',), ('add_line_unit',), ('insert_anis', ''), ('del_atom', 'first'), ('del_atom', 'last'), ('element', 'middle'),
-            ('rename', 'first'), ('to_iso', 'middle'), ('plan_set',), ('cycles', 'number'), ('update_weight',), ('acta_remove',),
-            ('acta_restore',), ('add_line_fvar',)}
+            ('to_iso', 'middle'), ('update_weight',), ('acta_remove',), ('acta_restore',)}
+    if small != 'tiny':
+        keep |= {('rename', 'first'), ('plan_set',), ('cycles', 'number'), ('add_line_fvar',)}
     out = []
     for o in full:
         key = [(o['op'],), (o['op'], o.get('pos', o.get('atoms', o.get('via'))))]
@@ -457,7 +458,7 @@ _TMP = []
 
 def tmpdir():
     if not _TMP:
-        _TMP.append(Path(tempfile.mkdtemp(prefix='c04_')))
+        _TMP.append(Path(tempfile.mkdtemp(prefix='c04_', dir='/dev/shm' if Path('/dev/shm').is_dir() else None)))
         atexit.register(shutil.rmtree, str(_TMP[0]), ignore_errors=True)
     return _TMP[0]
 
@@ -627,7 +628,7 @@ def evaluate(ctx, cases, stream=None):
 def run(ctx):
     ctx.rule = ('by-construction files with 1-3 SFAC lines, 1-3 FVAR lines (<= 7 free variables), 0-2 SYMM, ACTA/PLAN/L.S./WGHT, restraints, '
                 '3-7 iso/aniso atoms in PART/RESI context, WGHT + Q-peaks after END; histories over 29 edit instances (15 kinds): '
-                'bounded-exhaustive to depth 2 (quick) / 3 (thorough; 4 on a 14-instance alphabet) and random walks to depth 50, file written '
+                'bounded-exhaustive to depth 2, 3 on a 15-instance alphabet (quick) / 3 on all, 4 on a 10-instance alphabet (thorough) and random walks to depth 50, file written '
                 'and lexed after every edit; distinct by (file text, history); non-trivial = the scheme with absolute delete_on_write '
                 'indices would write something else than the specification somewhere in the history (insertion/deletion in front '
                 'of an absorbed SFAC/FVAR line)')
@@ -641,20 +642,14 @@ def run(ctx):
     shapes = [(2, 2), (3, 3), (1, 1)] if not thorough else [(2, 2), (3, 3), (1, 1), (1, 3), (3, 1)]
     for i, (ns, nf) in enumerate(shapes):
         f = make_file(rng, ns, nf, rich=False)
-        al = alphabet(f)
-        depth = 2
-        for d in range(1, depth + 1):
-            for h in itertools.product(al, repeat=d):
-                cases.append(dict(f, hist=[dict(o) for o in h]))
-        if thorough and i < 2:
-            for h in itertools.product(al, repeat=3):
-                cases.append(dict(f, hist=[dict(o) for o in h]))
-        sm = alphabet(f, small=True)
-        if i == 0 or thorough:
-            for h in itertools.product(sm, repeat=3):
-                cases.append(dict(f, hist=[dict(o) for o in h]))
+        enum = [(alphabet(f), 1), (alphabet(f), 2)]
+        if i == 0 or (thorough and i < 3):
+            enum.append((alphabet(f, small=True), 3))
         if thorough and i == 0:
-            for h in itertools.product(sm, repeat=4):
+            enum.append((alphabet(f), 3))
+            enum.append((alphabet(f, small='tiny'), 4))
+        for al, d in enum:
+            for h in itertools.product(al, repeat=d):
                 cases.append(dict(f, hist=[dict(o) for o in h]))
     ctx.extra['exhaustive_histories'] = len(cases)
     # 2. random walks on random rich files
